@@ -609,6 +609,19 @@ pub fn run_c03(tier: Tier) -> i32 {
             }
         }
     }
+    // native coins attached to operations that take none (or more than they take): they may only end up with the
+    // sender, the engine, the insurance fund or the fee pool
+    {
+        let mut a2 = liq_alpha(false);
+        let funded: Vec<Act> = a2
+            .iter()
+            .filter(|a| matches!(a, Act::Close { .. } | Act::Wd { .. } | Act::Liq { limit: 0, .. } | Act::Fund { .. } | Act::Dep { .. }))
+            .map(|a| Act::Funded { a: Box::new(a.clone()), funds: 7 * D })
+            .collect();
+        a2.extend(funded);
+        a2.push(Act::Funded { a: Box::new(Act::fund()), funds: 7 * D });
+        exps.push(Exp::new("unexpected native funds", cfg_liq(false, true, 250_000), a2, liq_seeds(), tier.pick(2, 3)));
+    }
     push_sweep(&mut exps, tier.pick(2, 3));
     push_dust(&mut exps, true, tier.pick(3, 4));
     if tier == Tier::Thorough {
@@ -1463,7 +1476,7 @@ pub fn run_c16(tier: Tier) -> i32 {
     al.withdraw = None;
     al.funding = true;
     al.prices = vec![];
-    al.blocks = vec![15];
+    al.blocks = vec![15, 0]; // incl. a new block within the same second
     let alpha = al.acts();
     let init = json!({"h": 0, "u": [], "lq": [], "lt": []});
     let seeds = vec![with_funding_due(seed_liquidatable()), with_funding_due(seed_liquidatable_mirror()), seed_same_block_cascade(), vec![
@@ -1587,6 +1600,8 @@ fn alpha_c15(w: &mut World, s: &EngSt) -> Vec<Act> {
         acts.push(Act::Close { t: t.into(), v: 0, limit: 1_000_000 * d });
     }
     acts.push(Act::blk(15));
+    // a new block within the same second as the previous one (block time has sub-second resolution)
+    acts.push(Act::blk(0));
     acts
 }
 
